@@ -28,9 +28,12 @@ def pat_byte(seed, i):
     return (z ^ (z >> 13)) & 0xff
 
 
+BIG_PERIOD = (1 << 20) - 3       # = harness/src/util.rs BIG_PERIOD: a PRIME, so that the data has no power-of-two period
+
+
 def stream_bytes(seed, lo, hi):
-    """bytes [lo, hi) of the stream fed by `<family> stream … seed`: byte i = pat(seed, i mod 2^20)"""
-    return bytes(pat_byte(seed, i % (1 << 20)) for i in range(lo, hi))
+    """bytes [lo, hi) of the stream fed by `<family> stream … seed` / `bigupd`: byte i = pat(seed, i mod BIG_PERIOD)"""
+    return bytes(pat_byte(seed, i % BIG_PERIOD) for i in range(lo, hi))
 
 
 def hx(b):
